@@ -18,10 +18,13 @@ ITEM = Cls('NARROW', minus="'\\")
 
 DEFAULT_KINDS = ['none', 'int0', 'int7', 'float0', 'float35', 'true', 'false', 'empty', 'str', 'expr']
 IDX_TYPES = [None, 'brin', 'btree', 'gin', 'gist', 'hash', 'spgist']
+EXPRS = ['now()', '(a) + (b)', '(x)', '((y))', "coalesce(a, 'z')", 'a - (b)']   # incl. texts that already start and end with parentheses
 
 
-def _default(kind, raw):
+def _default(kind, raw, ex=0):
     from pydbml.classes import Expression
+    if kind == 'expr':
+        return (Expression(EXPRS[ex]), '(' + EXPRS[ex] + ')')
     return {'none': (None, None), 'int0': (0, '0'), 'int7': (7, '7'), 'float0': (0.0, '0.0'), 'float35': (3.5, '3.5'),
             'true': (True, 'True'), 'false': (False, 'False'), 'empty': ('', ''), 'str': (raw, raw),
             'expr': (Expression(raw + '()'), '(' + raw + '())')}[kind]
@@ -56,7 +59,7 @@ def columns(schema, K, dk, wide=False):
     """one table, three columns: flags of c0 and pk of c1/c2 symbolic, default kind of c0 symbolic, names are holes"""
     dom = WIDE_NAME if wide else NAME
     args = ([('pk0', 'bool'), ('un0', 'bool'), ('nn0', 'bool'), ('ai0', 'bool'), ('pk1', 'bool'), ('pk2', 'bool')]
-            + hole_args('n', K, dom) + hole_args('r', 2, RAW))
+            + hole_args('n', K, dom) + hole_args('r', 2, RAW) + ([('ex', IntRange(0, len(EXPRS) - 1))] if dk == 'expr' else []))
     dki = DEFAULT_KINDS.index(dk)
 
     def build(a):
@@ -67,7 +70,7 @@ def columns(schema, K, dk, wide=False):
         a = dict(a)
         a['dk'] = dki
         a['nn2'] = True
-        dv, dtext = _default(DEFAULT_KINDS[a['dk']], raw)
+        dv, dtext = _default(DEFAULT_KINDS[a['dk']], raw, a.get('ex', 0))
         c0 = Column(name, 'varchar(255)', pk=a['pk0'], unique=a['un0'], not_null=a['nn0'], autoinc=a['ai0'], default=dv)
         c1 = Column('b', raw, pk=a['pk1'])
         c2 = Column('c', 'int[]', pk=a['pk2'], not_null=a['nn2'])
@@ -109,7 +112,7 @@ def columns(schema, K, dk, wide=False):
 def indexes(schema, shape, K):
     """one table (two columns) with two indexes; options of index 0 symbolic; shape of its subjects fanned out"""
     args = ([('uniq', 'bool'), ('named', 'bool'), ('ipk', 'bool'), ('cpk', 'bool'), ('ityp', IntRange(0, len(IDX_TYPES) - 1))]
-            + hole_args('n', K, NAME) + hole_args('c', K, NAME))
+            + hole_args('n', K, NAME) + hole_args('c', K, NAME) + ([('ex', IntRange(0, len(EXPRS) - 1))] if shape in ('expr', 'colexpr') else []))
 
     def build(a):
         from pydbml import Database
@@ -126,9 +129,9 @@ def indexes(schema, shape, K):
         elif shape == 'composite':
             subj, esubj = [c0, c1], (('col', cname), ('col', 'b'))
         elif shape == 'expr':
-            subj, esubj = [Expression('lower(b)')], (('expr', '(lower(b))'),)
+            subj, esubj = [Expression(EXPRS[a['ex']])], (('expr', '(' + EXPRS[a['ex']] + ')'),)
         else:
-            subj, esubj = [c1, Expression('b*2')], (('col', 'b'), ('expr', '(b*2)'))
+            subj, esubj = [c1, Expression(EXPRS[a['ex']])], (('col', 'b'), ('expr', '(' + EXPRS[a['ex']] + ')'))
         i0 = Index(subj, name=iname if a['named'] else None, unique=a['uniq'], type=IDX_TYPES[a['ityp']], pk=a['ipk'])
         i1 = Index([c1], unique=a['uniq1'])
         t.add_index(i0)
